@@ -20,7 +20,7 @@ RULE = (
   "history is cross-checked against MuJoCo mj_resetData. evaluation = one world judged; non-trivial = partial mask with contacts in an unselected world, or na>nu, or nhistory>0"
 )
 ASSUMPTIONS = ["fresh make_data and MuJoCo mj_resetData are the reference", "same nworld/capacities for all compared Data objects (bitwise comparison)"]
-BUDGET = {"quick": dict(examples=240, seconds=150, workers=16), "thorough": dict(examples=5000, seconds=1500, workers=16)}
+BUDGET = {"quick": dict(examples=240, seconds=420, workers=16), "thorough": dict(examples=5000, seconds=1500, workers=16)}
 
 _STATE = ["time", "qpos", "qvel", "act", "history", "qacc_warmstart", "ctrl", "qfrc_applied", "xfrc_applied", "eq_active", "mocap_pos", "mocap_quat", "userdata", "act_dot", "qacc", "overflow"]
 _TRAJ = ["time", "qpos", "qvel", "act", "history", "qacc_warmstart", "qacc", "sensordata"]
